@@ -1,1018 +1,481 @@
-"""C14 -- MessagePack codec: writer table / reader table / specification table
-agreement (engine E5).  Decides the table-shaped necessary conditions of the
-round-trip property; does not decide value equality (floats, UTF-8, nesting).
+"""C14 -- MessagePack codec: symbolic writer table / reader table / specification table
+agreement.  Decides the table-shaped necessary conditions of the round-trip property;
+does not decide value equality (float bits, UTF-8 content, nesting beyond depth 1).
 """
-import ast
 import struct
 
-from ..core import AnalysisError, unparse, norm_stmt
+from ..core import AnalysisError
 from .. import msgpack_spec as S
+from .. import symcodec as C
 
 F = 'supp/umsgpack.py'
 
 EXPLANATION = (
-    'Static table agreement for supp/umsgpack.py: the if/elif chains of every _pack_* '
-    'function are read into rows (integer set of the controlling quantity by exact '
-    'breakpoint decomposition, emitted prefix, struct format, argument order, payload), '
-    'the _unpack_* chains and the dispatch table built in __init are constant-folded for '
-    'all 256 first bytes, and both are compared row by row with the MessagePack '
-    'specification table (sa/msgpack_spec.py). Rules: R1 writer vs spec incl. bounded '
-    'write, R2 writer totality/refusal outside the domain, R3 reader vs spec for all 256 '
-    'bytes incl. non-minimal forms, R4 writer/reader layout agreement, R5 truncation '
-    'discipline (fp.read only in _read_except), R6 type dispatch order and compatibility '
-    'flag. Value-level round trip (float bits, UTF-8, nesting depth) is NOT decided.')
-TECHNIQUE = 'AST table extraction + constant folding + table comparison against the MessagePack spec'
+    'Symbolic interpretation of supp/umsgpack.py (sa/symcodec.py on sa/absint.py; nothing is imported or run). Writer: pack() '
+    'is interpreted once per kind of the data model (nil, true, false, int, float, str, bytes, list, tuple, dict, ext, an '
+    'unsupported object) with a symbolic controlling quantity (the integer, or the length of the payload / container); each '
+    'comparison with a constant forks the path and narrows an interval, struct.pack of a symbolic argument yields a symbolic '
+    'header field, fp.write records the emitted template. Reader: unpack() is interpreted once per first byte 0..255 on a file '
+    'object whose reads return symbolic bytes; struct.unpack yields field variables, reads of symbolic size record the length '
+    'expression, counted loops are summarised, nested unpack calls are cut at depth 1. Rules: R1 every non-raising writer path, '
+    'evaluated at the boundary and interior points of its interval, produces a header the specification table '
+    '(sa/msgpack_spec.py, written from the spec) decodes to the same family and the same value/length (bounded write: the value '
+    'fits the struct format), followed by the payload / the nested items of that very length; R2 per kind the non-raising '
+    'intervals partition exactly the domain of the data model and everything outside is refused with the codec\'s own '
+    'exception; R3 for each of the 256 first bytes the reader performs exactly the reads the specification row prescribes '
+    '(widths, formats, payload length = the length field, element counts) and builds the family\'s value, including non-minimal '
+    'forms; R4 (follows from R1+R3 through the table, checked explicitly for the compatibility mode pairing); R5 every read '
+    'that returns fewer bytes than asked ends in InsufficientDataException; R6 bool before int, compatibility flag switches '
+    'str/bytes to the raw family in both directions, list keys become hashable tuples at any depth. Value-level round trip '
+    '(float bits, UTF-8, nesting depth) is NOT decided.')
+TECHNIQUE = 'symbolic interpretation of the codec (interval path splitting) + comparison of writer and reader tables with the MessagePack specification table'
 
-
-class Unfoldable(Exception):
-    pass
-
-
-def fold(node, env):
-    """Tiny constant folder over ast; env maps unparse(expr) -> value."""
-    key = unparse(node)
-    if key in env:
-        return env[key]
-    if isinstance(node, ast.Constant):
-        return node.value
-    if isinstance(node, ast.UnaryOp):
-        v = fold(node.operand, env)
-        if isinstance(node.op, ast.USub):
-            return -v
-        if isinstance(node.op, ast.Invert):
-            return ~v
-        if isinstance(node.op, ast.Not):
-            return not v
-        if isinstance(node.op, ast.UAdd):
-            return +v
-    if isinstance(node, ast.BinOp):
-        a, b = fold(node.left, env), fold(node.right, env)
-        ops = {ast.Add: lambda: a + b, ast.Sub: lambda: a - b, ast.Mult: lambda: a * b,
-               ast.Pow: lambda: a ** b, ast.BitOr: lambda: a | b, ast.BitAnd: lambda: a & b,
-               ast.LShift: lambda: a << b, ast.RShift: lambda: a >> b,
-               ast.FloorDiv: lambda: a // b, ast.BitXor: lambda: a ^ b, ast.Mod: lambda: a % b}
-        for k, fn in ops.items():
-            if isinstance(node.op, k):
-                if isinstance(node.op, ast.Pow) and (not isinstance(b, int) or b > 80 or b < 0):
-                    raise Unfoldable(key)
-                return fn()
-    if isinstance(node, ast.BoolOp):
-        vals = [fold(v, env) for v in node.values]
-        if isinstance(node.op, ast.And):
-            r = True
-            for v in vals:
-                r = v
-                if not v:
-                    break
-            return r
-        r = False
-        for v in vals:
-            r = v
-            if v:
-                break
-        return r
-    if isinstance(node, ast.Compare):
-        left = fold(node.left, env)
-        for op, c in zip(node.ops, node.comparators):
-            right = fold(c, env)
-            res = {ast.Lt: lambda: left < right, ast.LtE: lambda: left <= right,
-                   ast.Gt: lambda: left > right, ast.GtE: lambda: left >= right,
-                   ast.Eq: lambda: left == right, ast.NotEq: lambda: left != right,
-                   ast.Is: lambda: left is right, ast.IsNot: lambda: left is not right,
-                   }.get(type(op))
-            if res is None:
-                raise Unfoldable(key)
-            if not res():
-                return False
-            left = right
-        return True
-    if isinstance(node, ast.Call):
-        fn = unparse(node.func)
-        if fn == 'ord' and len(node.args) == 1:
-            v = fold(node.args[0], env)
-            if isinstance(v, bytes) and len(v) == 1:
-                return v[0]
-        if fn == 'len' and len(node.args) == 1:
-            v = fold(node.args[0], env)
-            return len(v)
-        if fn == 'struct.pack' and len(node.args) == 2:
-            return struct.pack(fold(node.args[0], env), fold(node.args[1], env))
-        if fn == 'struct.unpack' and len(node.args) == 2:
-            return struct.unpack(fold(node.args[0], env), fold(node.args[1], env))
-    if isinstance(node, ast.Subscript):
-        v = fold(node.value, env)
-        i = fold(node.slice, env)
-        return v[i]
-    if isinstance(node, ast.Tuple):
-        return tuple(fold(e, env) for e in node.elts)
-    raise Unfoldable(key)
+INT_LO, INT_HI = S.INT_DOMAIN
+LEN_LO, LEN_HI = S.LEN_DOMAIN
+PACK_EXC = ('UnsupportedTypeException', 'PackException')
+KIND_FAMILY = {'int': 'int', 'str': 'str', 'bytes': 'bin', 'list': 'array', 'tuple': 'array', 'dict': 'map', 'ext': 'ext',
+               'float': 'float', 'nil': 'nil', 'true': 'bool', 'false': 'bool'}
 
 
 def norm_fmt(fmt):
-    """'>B' == 'B', '<b'... single byte formats carry no endianness."""
-    if not isinstance(fmt, str):
-        return fmt
-    if len(fmt) == 2 and fmt[0] in '<>!=' and fmt[1] in 'bB':
-        return fmt[1]
-    if len(fmt) == 2 and fmt[0] == '!':
-        return '>' + fmt[1]
-    return fmt
+    fmt = fmt.strip()
+    if fmt and fmt[0] in '<>=!@':
+        order, rest = fmt[0], fmt[1:]
+    else:
+        order, rest = '', fmt
+    if all(c in 'Bbx?c' for c in rest):
+        order = ''
+    elif order in ('!', '>'):
+        order = '>'
+    return order + rest
 
 
-# ---------------------------------------------------------------------------
-# writer side
-# ---------------------------------------------------------------------------
-
-def chain_constants(fn, qtext):
-    """All integer constants the function compares the quantity with."""
-    consts = set()
-    for n in ast.walk(fn):
-        if isinstance(n, ast.Compare):
-            parts = [n.left] + list(n.comparators)
-            texts = [unparse(p) for p in parts]
-            if qtext in texts:
-                for p in parts:
-                    if unparse(p) != qtext:
-                        try:
-                            v = fold(p, {})
-                        except Unfoldable:
-                            raise AnalysisError('%s: cannot fold comparison constant %s'
-                                                % (fn.name, unparse(p)))
-                        if isinstance(v, int):
-                            consts.add(v)
-    return consts
+def samples(iv, dom=None):
+    lo, hi, ex = iv
+    pts = {lo, lo + 1, hi - 1, hi, (lo + hi) // 2}
+    if dom:
+        pts |= {p for p in (dom[0], dom[1]) if lo <= p <= hi}
+    return sorted(p for p in pts if lo <= p <= hi and p not in ex)
 
 
-def find_quantity(fn):
-    """The expression the range chain is about: `obj`, `len(obj)`, `len(obj.data)`."""
-    cands = {}
-    for n in ast.walk(fn):
-        if isinstance(n, ast.If):
-            for c in ast.walk(n.test):
-                if isinstance(c, ast.Compare):
-                    for p in [c.left] + list(c.comparators):
-                        try:
-                            fold(p, {})
-                        except Unfoldable:
-                            cands[unparse(p)] = cands.get(unparse(p), 0) + 1
-    if not cands:
-        return None
-    if len(cands) != 1:
-        raise AnalysisError('%s: range chain compares several quantities: %s'
-                            % (fn.name, sorted(cands)))
-    return list(cands)[0]
-
-
-class StaleTest(ast.stmt):
-    """Marker: the controlling variable was reassigned after a range test on the executed path."""
-    _fields = ()
-
-
-def take_path(stmts, env, fnname, state=None):
-    """Follow the if/elif chain of a statement list for a concrete quantity value.
-    Returns (leaf statements executed in order, excluding the Ifs themselves)."""
-    out = []
-    state = state if state is not None else {'tested': None}
-    for st in stmts:
-        if isinstance(st, ast.If):
-            try:
-                c = fold(st.test, env)
-            except Unfoldable:
-                raise AnalysisError('%s: cannot fold condition %s' % (fnname, unparse(st.test)))
-            if any(k in unparse(st.test) for k in env if isinstance(k, str) and k.startswith('len(')):
-                state['tested'] = st
-            out.extend(take_path(st.body if c else st.orelse, env, fnname, state))
-        elif isinstance(st, (ast.Global, ast.Pass)):
-            continue
-        elif isinstance(st, ast.Expr) and isinstance(st.value, ast.Constant):
-            continue
+def eval_header(parts, env):
+    """Concrete bytes of the leading constant / packed parts under env; -> (bytes, rest parts) or raises struct.error."""
+    out = b''
+    i = 0
+    for i, p in enumerate(parts):
+        if isinstance(p, bytes):
+            out += p
+        elif isinstance(p, C.SymPack):
+            vals = [C.sym_eval(a, env) if not isinstance(a, (float, C.SymFloat)) else 1.5 for a in p.args]
+            out += struct.pack(p.fmt, *vals)
         else:
-            if isinstance(st, ast.Assign) and state['tested'] is not None:
-                tv = {unparse(t) for t in st.targets}
-                if any(k.startswith('len(') and k[4:-1].split('.')[0] in tv for k in env if isinstance(k, str)):
-                    m = StaleTest()
-                    m.lineno = st.lineno
-                    m.test = state['tested']
-                    m.assign = st
-                    out.append(m)
-            out.append(st)
-        if out and isinstance(out[-1], (ast.Raise, ast.Return)):
-            break
-    return out
+            return out, parts[i:]
+    return out, []
 
 
-def flatten_add(e):
-    if isinstance(e, ast.BinOp) and isinstance(e.op, ast.Add):
-        return flatten_add(e.left) + flatten_add(e.right)
-    return [e]
+def spec_header(data):
+    """Decode the header bytes `data` with the specification table.
+    -> dict(row, family, value | length, ext_type, used)"""
+    b0 = data[0]
+    name, fam, lo, hi, kind, prm = S.BY_BYTE[b0]
+    d = {'row': name, 'family': fam, 'kind': kind, 'used': 1}
+    if kind == 'inline':
+        d['value'] = (b0 & prm['mask']) if not prm['signed'] else struct.unpack('b', bytes([b0]))[0]
+    elif kind == 'fixlen':
+        d['length'] = b0 & prm['mask']
+    elif kind == 'const':
+        d['value'] = prm['value']
+    elif kind == 'value':
+        w = prm['width']
+        if len(data) < 1 + w:
+            raise ValueError('header too short')
+        if fam == 'int':
+            d['value'] = struct.unpack(prm['fmt'], data[1:1 + w])[0]
+        d['used'] = 1 + w
+    elif kind == 'len':
+        w = prm['width']
+        if len(data) < 1 + w:
+            raise ValueError('header too short')
+        d['length'] = struct.unpack(prm['fmt'], data[1:1 + w])[0]
+        d['used'] = 1 + w
+    elif kind == 'fixext':
+        d['length'] = prm['n']
+    if fam == 'ext':
+        if len(data) < d['used'] + 1:
+            raise ValueError('ext type missing')
+        d['ext_type'] = data[d['used']]
+        d['used'] += 1
+    return d
 
 
-def parse_write(st, fnname):
-    """fp.write(<concat>) -> list of parts."""
-    if not (isinstance(st, ast.Expr) and isinstance(st.value, ast.Call)
-            and unparse(st.value.func) == 'fp.write' and len(st.value.args) == 1):
-        return None
-    parts = []
-    for p in flatten_add(st.value.args[0]):
-        if isinstance(p, ast.Constant) and isinstance(p.value, bytes):
-            parts.append(('lit', p.value))
-        elif isinstance(p, ast.Call) and unparse(p.func) == 'struct.pack':
-            try:
-                fmt = fold(p.args[0], {})
-            except Unfoldable:
-                raise AnalysisError('%s: struct.pack with computed format' % fnname)
-            parts.append(('pack', fmt, [unparse(a) for a in p.args[1:]]))
-        elif isinstance(p, (ast.Name, ast.Attribute)):
-            parts.append(('payload', unparse(p)))
-        elif isinstance(p, ast.IfExp):
-            parts.append(('ifexp', p))
-        else:
-            raise AnalysisError('%s: unrecognised fp.write operand %s' % (fnname, unparse(p)))
-    return parts
-
-
-def decompose(fn, qtext, domain):
-    """Exact partition of the integer line by the function's chain.
-    Returns list of (lo, hi, leaf_stmts) maximal segments in increasing order;
-    lo/hi may be None for unbounded."""
-    consts = chain_constants(fn, qtext) | {domain[0], domain[1]}
-    pts = set()
-    for c in consts:
-        pts.update((c - 1, c, c + 1))
-    pts = sorted(pts)
-    segs = []
-
-    def leaf_at(p):
-        return take_path(fn.body, {qtext: p}, fn.name)
-
-    # unbounded segment below the first point behaves like the first point - 1
-    below = pts[0] - 1
-    segs.append((None, below, leaf_at(below)))
-    for i, p in enumerate(pts):
-        segs.append((p, p, leaf_at(p)))
-        if i + 1 < len(pts) and pts[i + 1] - p > 1:
-            segs.append((p + 1, pts[i + 1] - 1, leaf_at(p + 1)))
-    above = pts[-1] + 1
-    segs.append((above, None, leaf_at(above)))
-    # merge adjacent segments with the identical leaf
-    merged = []
-    for lo, hi, leaf in segs:
-        sig = tuple(id(s) for s in leaf)
-        crosses = lo is not None and lo in (domain[0], domain[1] + 1)
-        if merged and merged[-1][3] == sig and not crosses:
-            merged[-1] = (merged[-1][0], hi, leaf, sig)
-        else:
-            merged.append((lo, hi, leaf, sig))
-    return [(lo, hi, leaf) for lo, hi, leaf, _ in merged]
-
-
-def fmt_int(v):
-    if v is None:
-        return 'inf'
-    for e in (63, 64, 32, 31, 16, 15, 8, 7):
-        for d in (-1, 0, 1):
-            if v == 2 ** e + d:
-                return '2^%d%s' % (e, {0: '', 1: '+1', -1: '-1'}[d])
-            if v == -(2 ** e) + d:
-                return '-2^%d%s' % (e, {0: '', 1: '+1', -1: '-1'}[d])
-    return str(v)
-
-
-WRITERS = {
-    # function -> (family, domain, quantity kind)
-    '_pack_integer': ('int', S.INT_DOMAIN),
-    '_pack_string': ('str', S.LEN_DOMAIN),
-    '_pack_binary': ('bin', S.LEN_DOMAIN),
-    '_pack_ext': ('ext', S.LEN_DOMAIN),
-    '_pack_array': ('array', S.LEN_DOMAIN),
-    '_pack_map': ('map', S.LEN_DOMAIN),
-}
-
-
-def check_writer(repo, res, fname, family, domain, emitted):
-    fn = repo.module_func(F, fname)
-    qtext = find_quantity(fn)
-    if qtext is None:
-        raise AnalysisError('%s: no range chain found' % fname)
-    is_len = qtext.startswith('len(')
-    if (family == 'int') == is_len:
-        raise AnalysisError('%s: unexpected controlling quantity %s' % (fname, qtext))
-    lenarg = qtext
-    segs = decompose(fn, qtext, domain)
+def check_writer(res, wt, compat, ext_range):
+    mode = ' [compatibility]' if compat else ''
+    ext_types = sorted({ext_range[0], ext_range[1], 0, -1, 127} & set(range(ext_range[0], ext_range[1] + 1)))
     nrows = 0
-    for lo, hi, leaf in segs:
-        if is_len and hi is not None and hi < 0:
-            continue   # negative lengths cannot occur
-        if is_len and (lo is None or lo < 0):
-            lo = 0
-        rng = '[%s, %s]' % (fmt_int(lo), fmt_int(hi))
-        inside = (lo is not None and hi is not None and lo >= domain[0] and hi <= domain[1])
-        outside = (hi is not None and hi < domain[0]) or (lo is not None and lo > domain[1])
-        line = leaf[0].lineno if leaf else fn.lineno
-        stale = [s for s in leaf if isinstance(s, StaleTest)]
-        if stale and inside:
-            res.check('C14-R1', '%s %s tested value is the written value' % (fname, rng), False, F, stale[0].lineno,
-                      '%s: the range test `%s` is made on %s before `%s`; the header then carries the length of the new value: '
-                      'a %s whose length changes under that statement (non-ASCII text under UTF-8 encoding) gets a format that '
-                      'cannot hold it' % (fname, unparse(stale[0].test.test), qtext, norm_stmt(stale[0].assign), family))
-        leaf = [s for s in leaf if not isinstance(s, StaleTest)]
-        writes = [parse_write(s, fname) for s in leaf]
-        wparts = [w for w in writes if w is not None]
-        raises = [s for s in leaf if isinstance(s, ast.Raise)]
-        key = '%s %s' % (fname, rng)
-        if not inside and not outside:
-            # a segment straddling the domain boundary: the chain has no
-            # breakpoint at the domain edge -> values outside are written
-            res.check('C14-R2', key, False, F, line,
-                      '%s: segment %s of %s straddles the data-model domain [%s, %s]: '
-                      'values outside the domain are encoded instead of refused'
-                      % (fname, rng, qtext, fmt_int(domain[0]), fmt_int(domain[1])))
+    for kind, rows in wt.items():
+        ok_rows = [r for r in rows if r['exc'] is None]
+        fam = KIND_FAMILY.get(kind)
+        if compat and kind in ('str', 'bytes'):
+            fam = 'str'           # the legacy raw family shares the str codes (no str 8 / bin)
+        if kind == 'unsupported':
+            res.check('C14-R2', 'an unsupported object is refused' + mode, rows and all(r['exc'] is not None and r['exc'].exc_name in PACK_EXC
+                                                                                           for r in rows), F, 0,
+                      'packing an object outside the data model must raise UnsupportedTypeException; got %s'
+                      % [(r['exc'] and r['exc'].exc_name, r['written']) for r in rows], sample='object() -> UnsupportedTypeException')
             continue
-        if outside:
-            ok = bool(raises) and not wparts
-            if not ok and wparts:
-                # struct.pack refuses (struct.error) what its format cannot hold: also a refusal
-                for part in wparts[0]:
-                    if part[0] == 'pack' and part[2] and part[2][0] == qtext:
-                        cap = S.INT_FMT.get(norm_fmt(part[1][:2] if part[1].startswith('>') else part[1][:1]))
-                        if cap and ((lo is not None and lo > cap[2]) or (hi is not None and hi < cap[1])):
-                            ok = True
-            res.check('C14-R2', key, ok, F, line,
-                      '%s: %s %s outside the domain must be refused with an exception, '
-                      'found %s' % (fname, qtext, rng, 'raise' if ok else 'a write'),
-                      sample='%s: %s in %s -> raise' % (fname, qtext, rng))
+        if kind in ('nil', 'true', 'false', 'float'):
+            for r in rows:
+                nrows += 1
+                key = 'pack(%s)%s' % (kind, mode)
+                if r['exc'] is not None:
+                    res.check('C14-R1', key, False, F, 0, 'packing %s raises %s' % (kind, r['exc']))
+                    continue
+                try:
+                    hdr, rest = eval_header(r['written'], {})
+                    d = spec_header(hdr)
+                except (struct.error, ValueError, KeyError, TypeError, IndexError) as e:
+                    res.check('C14-R1', key, False, F, 0, 'the bytes written for %s (%s) are not a valid header: %s' % (kind, r['written'], e))
+                    continue
+                want = {'nil': None, 'true': True, 'false': False}.get(kind)
+                okv = d['family'] == fam and (kind == 'float' or d.get('value') is want) and not rest and d['used'] == len(hdr)
+                if kind == 'float':
+                    p = [x for x in r['written'] if isinstance(x, C.SymPack)]
+                    okv = okv and len(p) == 1 and norm_fmt(p[0].fmt) == norm_fmt(S.BY_BYTE[hdr[0]][5]['fmt']) \
+                        and isinstance(p[0].args[0], C.SymFloat)
+                res.check('C14-R1', key, okv, F, 0, 'pack(%s) writes %s, which the specification reads as %s' % (kind, r['written'], d),
+                          sample='%s -> %s' % (kind, d['row']))
             continue
-        # inside the domain: must write exactly one header
-        if raises or len(wparts) < 1:
-            res.check('C14-R2', key, False, F, line,
-                      '%s: %s in %s (inside the data model) is refused or not written'
-                      % (fname, qtext, rng))
-            continue
-        nrows += 1
-        parts = wparts[0]
-        check_row(repo, res, fname, family, qtext, lenarg, lo, hi, parts, leaf, line, emitted)
+        # kinds with a controlling quantity
+        dom = (INT_LO, INT_HI) if kind == 'int' else (LEN_LO, LEN_HI)
+        covered = []
+        for r in ok_rows:
+            nrows += 1
+            iv = r['interval']
+            lo, hi, ex = iv
+            key = 'pack(%s) %s..%s%s' % (kind, lo if lo > -C.BIG else '-inf', hi if hi < C.BIG else '+inf', mode)
+            covered.append((lo, hi, ex))
+            qn = 'n' if kind == 'int' else 'L'
+            problems = []
+            first_rows = set()
+            # every symbolic variable the template mentions must be the tested quantity (or the ext type)
+            free = set()
+            for p in r['written']:
+                if isinstance(p, C.SymPack):
+                    for a in p.args:
+                        free |= _vars(a)
+                if isinstance(p, C.SymPayload):
+                    free |= _vars(p.length)
+            stray = sorted(v for v in free if v not in (qn, 't'))
+            for v in stray:
+                problems.append('the header is computed from %s, but the branch conditions test %s: the written value is not the '
+                                'tested one' % (v, qn))
+            for q in ([] if stray else samples(iv, dom)):
+                for t in (ext_types if kind == 'ext' else (0,)):
+                    env = {qn: q, 't': t}
+                    try:
+                        hdr, rest = eval_header(r['written'], env)
+                        d = spec_header(hdr)
+                    except struct.error as e:
+                        problems.append('%s=%d does not fit the format written on this path (%s)' % (qn, q, e))
+                        break
+                    except (ValueError, KeyError, IndexError, TypeError) as e:
+                        problems.append('%s=%d: header %r is not valid MessagePack (%s)' % (qn, q, r['written'], e))
+                        break
+                    first_rows.add(d['row'])
+                    if d['family'] != fam or d['used'] != len(hdr):
+                        problems.append('%s=%d is written as %s (%s family, %d header bytes of %d)' % (qn, q, d['row'], d['family'], d['used'], len(hdr)))
+                        break
+                    got = d.get('value') if kind == 'int' else d.get('length')
+                    if got != q:
+                        problems.append('%s=%d is written as %s carrying %r' % (qn, q, d['row'], got))
+                        break
+                    if kind == 'ext' and d.get('ext_type') != (t & 0xff):
+                        problems.append('ext type %d is written as %r' % (t, d.get('ext_type')))
+                        break
+                    pr = payload_problem(kind, rest, r, qn)
+                    if pr:
+                        problems.append(pr)
+                        break
+                if problems:
+                    break
+            res.check('C14-R1', key, not problems, F, 0, 'writer path for %s in [%s, %s]: %s' % (kind, lo, hi, '; '.join(problems)),
+                      sample='%s in [%s, %s] -> %s' % (kind, lo, hi, '/'.join(sorted(first_rows))))
+        # R2: the non-raising intervals are exactly the domain; the rest is refused by the codec's own exception
+        pts = set()
+        for lo, hi, ex in covered:
+            pts |= {lo, hi}
+        probes = sorted({dom[0] - 1, dom[0], dom[1], dom[1] + 1, 0, -1, 1} | {p for p in pts if abs(p) < C.BIG}
+                        | {p + 1 for p in pts if abs(p) < C.BIG} | {p - 1 for p in pts if abs(p) < C.BIG})
+        holes, extra, multi = [], [], []
+        for p in probes:
+            if kind != 'int' and p < 0:
+                continue
+            hit = [c for c in covered if c[0] <= p <= c[1] and p not in c[2]]
+            inside = dom[0] <= p <= dom[1]
+            if inside and not hit:
+                holes.append(p)
+            if not inside and hit:
+                extra.append(p)
+            if len(hit) > 1:
+                multi.append(p)
+        res.check('C14-R2', 'pack(%s) accepts exactly the domain%s' % (kind, mode), not holes and not extra and not multi, F, 0,
+                  'pack(%s): values of the domain [%d, %d] that no writer path accepts: %s; values outside it that are written '
+                  'instead of refused: %s' % (kind, dom[0], dom[1], holes[:4], extra[:4]),
+                  sample='%s: %d paths partition [%d, %d]' % (kind, len(covered), dom[0], dom[1]))
+        for r in rows:
+            if r['exc'] is not None:
+                res.check('C14-R2', 'pack(%s) outside the domain is refused%s' % (kind, mode), r['exc'].exc_name in PACK_EXC, F, 0,
+                          'a %s outside the domain must be refused with UnsupportedTypeException, the writer raises %s (interval %s)'
+                          % (kind, r['exc'].exc_name, r['interval'][:2]), sample='%s out of range -> UnsupportedTypeException' % kind)
     return nrows
 
 
-def first_byte_info(parts, qtext, fname):
-    """-> ('lit', byte) | ('inline', fmt) | ('mask', base)"""
-    p0 = parts[0]
-    if p0[0] == 'lit':
-        if len(p0[1]) != 1:
-            raise AnalysisError('%s: multi-byte literal prefix' % fname)
-        return ('lit', p0[1][0])
-    if p0[0] == 'pack' and norm_fmt(p0[1]) in ('B', 'b') and len(p0[2]) == 1:
-        arg = p0[2][0]
-        if arg == qtext:
-            return ('inline', norm_fmt(p0[1]))
-        try:
-            e = ast.parse(arg, mode='eval').body
-        except SyntaxError:
-            e = None
-        if isinstance(e, ast.BinOp) and isinstance(e.op, ast.BitOr):
-            sides = [e.left, e.right]
-            for a, b in (sides, sides[::-1]):
-                if unparse(b) == qtext:
-                    try:
-                        return ('mask', fold(a, {}))
-                    except Unfoldable:
-                        pass
-    raise AnalysisError('%s: unrecognised header expression %r' % (fname, parts[0]))
+def _vars(x):
+    if isinstance(x, C.SymInt):
+        return {x.name}
+    if isinstance(x, C.SymExpr):
+        out = set()
+        for a in x.args:
+            out |= _vars(a)
+        return out
+    return set()
 
 
-def check_row(repo, res, fname, family, qtext, lenarg, lo, hi, parts, leaf, line, emitted):
-    rng = '[%s, %s]' % (fmt_int(lo), fmt_int(hi))
-    key = '%s %s' % (fname, rng)
-    kind = first_byte_info(parts, qtext, fname)
-    rest = parts[1:]
-    if kind[0] == 'inline':
-        fmt = kind[1]
-        if fmt == 'B':
-            ok = lo >= 0 and hi <= 0x7f
-            want = 'positive fixint needs 0..127'
-        else:
-            ok = lo >= -32 and hi <= 0x7f
-            want = 'fixint needs -32..127'
-        res.check('C14-R1', key, ok and not rest, F, line,
-                  '%s: %s in %s written as a bare %r byte; %s'
-                  % (fname, qtext, rng, fmt, want),
-                  sample='%s: %s in %s -> fixint byte (struct %r)' % (fname, qtext, rng, fmt))
-        for b in sorted({lo & 0xff, hi & 0xff}):
-            emitted.setdefault(b, []).append((fname, rng))
-        ok_f = (family == 'int')
-        res.check('C14-R1', key + ' family', ok_f, F, line,
-                  '%s emits a fixint for family %s' % (fname, family), nontrivial=False)
-        return
-    if kind[0] == 'mask':
-        base = kind[1]
-        spec = S.BY_BYTE.get(base)
-        ok = (spec is not None and spec[4] == 'fixlen' and spec[2] == base
-              and lo >= 0 and hi <= spec[5]['mask'] and spec[1] == family)
-        res.check('C14-R1', key, ok, F, line,
-                  '%s: %s in %s written as 0x%02x|len; the spec row for 0x%02x is %s (%s) '
-                  'with capacity %s' % (fname, qtext, rng, base, base,
-                                        spec[0] if spec else None, spec[1] if spec else None,
-                                        spec[5].get('mask') if spec else None),
-                  sample='%s: %s in %s -> 0x%02x|len (%s)' % (fname, qtext, rng, base,
-                                                              spec[0] if spec else '?'))
-        emitted.setdefault(base, []).append((fname, rng))
-        check_payload(res, fname, family, lenarg, rest, leaf, line, key)
-        return
-    byte = kind[1]
-    spec = S.BY_BYTE[byte]
-    name, sfam, _, _, skind, sp = spec
-    emitted.setdefault(byte, []).append((fname, rng))
-    ok_f = (sfam == family)
-    res.check('C14-R1', key + ' family', ok_f, F, line,
-              '%s (family %s) emits prefix 0x%02x which the spec assigns to %s (%s)'
-              % (fname, family, byte, name, sfam))
-    if not ok_f:
-        return
-    if skind == 'value':
-        ok = (len(rest) == 1 and rest[0][0] == 'pack' and norm_fmt(rest[0][1]) == norm_fmt(sp['fmt'])
-              and rest[0][2] == [qtext])
-        cap = S.INT_FMT.get(norm_fmt(sp['fmt']))
-        if cap:
-            ok = ok and lo >= cap[1] and hi <= cap[2]
-        res.check('C14-R1', key, ok, F, line,
-                  '%s: %s in %s -> 0x%02x (%s) needs struct %r of the value and the range '
-                  'within the format capacity; found %s' % (fname, qtext, rng, byte, name,
-                                                            sp['fmt'], rest),
-                  sample='%s: %s in %s -> 0x%02x %s struct %r' % (fname, qtext, rng, byte, name,
-                                                                  sp['fmt']))
-    elif skind == 'len':
-        if family == 'ext':
-            wantfmt = sp['fmt'] + 'B'
-            ok = (rest and rest[0][0] == 'pack' and rest[0][1].lstrip('>') == wantfmt.lstrip('>')
-                  and (len(wantfmt.lstrip('>')) == 2 and sp['width'] == 1 or rest[0][1].startswith('>'))
-                  and len(rest[0][2]) == 2 and rest[0][2][0] == lenarg
-                  and 'type' in rest[0][2][1] and 'len(' not in rest[0][2][1])
-        else:
-            ok = (rest and rest[0][0] == 'pack' and norm_fmt(rest[0][1]) == norm_fmt(sp['fmt'])
-                  and rest[0][2] == [lenarg])
-        cap = S.INT_FMT[norm_fmt(sp['fmt'])]
-        ok = bool(ok) and lo >= 0 and hi <= cap[2]
-        res.check('C14-R1', key, ok, F, line,
-                  '%s: %s in %s -> 0x%02x (%s) needs a %d-byte big-endian length field %r%s '
-                  'and the range within its capacity %d; found %s'
-                  % (fname, qtext, rng, byte, name, sp['width'], sp['fmt'],
-                     ' then the type byte' if family == 'ext' else '', cap[2], rest[:1]),
-                  sample='%s: %s in %s -> 0x%02x %s len field %r' % (fname, qtext, rng, byte, name,
-                                                                     sp['fmt']))
-        check_payload(res, fname, family, lenarg, rest[1:], leaf, line, key)
-    elif skind == 'fixext':
-        ok = (lo == hi == sp['n'] and len(rest) >= 1 and rest[0][0] == 'pack'
-              and norm_fmt(rest[0][1]) == 'B' and len(rest[0][2]) == 1 and 'type' in rest[0][2][0])
-        res.check('C14-R1', key, ok, F, line,
-                  '%s: %s in %s -> 0x%02x (%s) requires data length exactly %d and a type byte'
-                  % (fname, qtext, rng, byte, name, sp['n']),
-                  sample='%s: %s == %d -> 0x%02x %s' % (fname, qtext, sp['n'], byte, name))
-        check_payload(res, fname, family, lenarg, rest[1:], leaf, line, key)
-    else:
-        res.check('C14-R1', key, False, F, line,
-                  '%s: prefix 0x%02x (%s) is not a %s format' % (fname, byte, name, family))
-
-
-def check_payload(res, fname, family, lenarg, rest, leaf, line, key):
-    """After the header the payload must follow (in the same write for
-    str/bin/ext, by a loop over the elements for array/map)."""
-    inner = lenarg[4:-1] if lenarg.startswith('len(') else lenarg
-    if family in ('str', 'bin', 'ext'):
-        ok = len(rest) == 1 and rest[0] == ('payload', inner)
-        res.check('C14-R4', key + ' payload', ok, F, line,
-                  '%s: header must be followed by the payload %s exactly once; found %s'
-                  % (fname, inner, rest), nontrivial=False)
-        return
-    loops = [s for s in leaf if isinstance(s, ast.For)]
-    ok = False
-    if len(loops) == 1 and not rest:
-        lp = loops[0]
-        calls = [unparse(s.value) for s in lp.body
-                 if isinstance(s, ast.Expr) and isinstance(s.value, ast.Call)]
-        it = unparse(lp.iter)
-        tgt = unparse(lp.target)
-        if family == 'array':
-            ok = (it == inner and calls == ['pack(%s, fp)' % tgt])
-        else:
-            names = [unparse(e) for e in lp.target.elts] if isinstance(lp.target, ast.Tuple) else []
-            ok = (it in (inner + '.items()', inner + '.iteritems()') and len(names) == 2
-                  and calls == ['pack(%s, fp)' % names[0], 'pack(%s, fp)' % names[1]])
-    res.check('C14-R4', key + ' payload', ok, F, line,
-              '%s: after the header every element (key before value for maps) must be '
-              'packed once, in iteration order' % fname, nontrivial=False)
-
-
-def check_simple_writers(repo, res, emitted):
-    # nil
-    fn = repo.module_func(F, '_pack_nil')
-    w = [parse_write(s, fn.name) for s in fn.body]
-    ok = w == [[('lit', b'\xc0')]]
-    res.check('C14-R1', '_pack_nil', ok, F, fn.lineno, '_pack_nil must write exactly 0xc0', nontrivial=False)
-    emitted.setdefault(0xc0, []).append(('_pack_nil', ''))
-    # boolean
-    fn = repo.module_func(F, '_pack_boolean')
-    ok = False
-    w = [parse_write(s, fn.name) for s in fn.body]
-    if len(w) == 1 and w[0] and len(w[0]) == 1 and w[0][0][0] == 'ifexp':
-        e = w[0][0][1]
-        try:
-            ok = (unparse(e.test) == 'obj' and fold(e.body, {}) == b'\xc3'
-                  and fold(e.orelse, {}) == b'\xc2')
-        except Unfoldable:
-            ok = False
-    else:
-        # if/else form
-        try:
-            t = take_path(fn.body, {'obj': True}, fn.name)
-            f = take_path(fn.body, {'obj': False}, fn.name)
-            ok = (parse_write(t[0], fn.name) == [('lit', b'\xc3')]
-                  and parse_write(f[0], fn.name) == [('lit', b'\xc2')])
-        except (AnalysisError, IndexError):
-            ok = False
-    res.check('C14-R1', '_pack_boolean', ok, F, fn.lineno,
-              '_pack_boolean must write 0xc3 for true and 0xc2 for false')
-    emitted.setdefault(0xc2, []).append(('_pack_boolean', ''))
-    emitted.setdefault(0xc3, []).append(('_pack_boolean', ''))
-    # float
-    fn = repo.module_func(F, '_pack_float')
-    for size in (64, 32):
-        leaf = take_path(fn.body, {'_float_size': size}, fn.name)
-        w = [parse_write(s, fn.name) for s in leaf]
-        w = [x for x in w if x]
-        ok = False
-        byte = None
-        if len(w) == 1 and len(w[0]) == 2 and w[0][0][0] == 'lit' and w[0][1][0] == 'pack':
-            byte = w[0][0][1][0]
-            spec = S.BY_BYTE[byte]
-            ok = (spec[1] == 'float' and spec[5]['fmt'] == w[0][1][1] and w[0][1][2] == ['obj']
-                  and spec[5]['width'] * 8 == size)
-            emitted.setdefault(byte, []).append(('_pack_float', str(size)))
-        res.check('C14-R1', '_pack_float %d' % size, ok, F, fn.lineno,
-                  '_pack_float (%d-bit) must write 0x%s with the matching big-endian IEEE '
-                  'format' % (size, 'cb' if size == 64 else 'ca'),
-                  sample='_pack_float: _float_size == %d -> %s' % (size, w))
-    # _float_size derivation
-    init = repo.module_func(F, '__init')
-    leaf64 = take_path(init.body, _InitEnv({'sys.float_info.mant_dig': 53,
-                                            'sys.version_info[0]': 3}), '__init')
-    assigns = {unparse(s.targets[0]): unparse(s.value) for s in leaf64
-               if isinstance(s, ast.Assign) and len(s.targets) == 1}
-    res.check('C14-R1', '_float_size', assigns.get('_float_size') == '64', F, init.lineno,
-              'doubles (53-bit mantissa) must select the 64-bit float format', nontrivial=False)
-    return assigns
-
-
-class _InitEnv(dict):
-    pass
-
-
-# ---------------------------------------------------------------------------
-# reader side
-# ---------------------------------------------------------------------------
-
-def dispatch_table(repo):
-    init = repo.module_func(F, '__init')
-    table = {}
-    unknown = []
-    for st in ast.walk(init):
-        if isinstance(st, ast.For):
-            if not (isinstance(st.iter, ast.Call) and unparse(st.iter.func) == 'range'):
-                continue
-            try:
-                bounds = [fold(a, {}) for a in st.iter.args]
-            except Unfoldable:
-                raise AnalysisError('__init: cannot fold range bounds %s' % unparse(st.iter))
-            var = unparse(st.target)
-            for code in range(*bounds):
-                for s in st.body:
-                    if (isinstance(s, ast.Assign) and isinstance(s.targets[0], ast.Subscript)
-                            and unparse(s.targets[0].value) == '_unpack_dispatch_table'):
-                        try:
-                            k = fold(s.targets[0].slice, {var: code})
-                        except (Unfoldable, struct.error):
-                            raise AnalysisError('__init: cannot fold dispatch key %s'
-                                                % unparse(s.targets[0].slice))
-                        table[k] = (unparse(s.value), s.lineno)
-        elif (isinstance(st, ast.Assign) and isinstance(st.targets[0], ast.Subscript)
-              and unparse(st.targets[0].value) == '_unpack_dispatch_table'
-              and not isinstance(getattr(st, '_parent', None), ast.For)):
-            try:
-                k = fold(st.targets[0].slice, {})
-            except Unfoldable:
-                raise AnalysisError('__init: cannot fold dispatch key %s'
-                                    % unparse(st.targets[0].slice))
-            table[k] = (unparse(st.value), st.lineno)
-    # the table must be written nowhere else
-    for n in ast.walk(repo.tree(F)):
-        if isinstance(n, ast.Subscript) and isinstance(n.ctx, (ast.Store, ast.Del)) \
-                and unparse(n.value) == '_unpack_dispatch_table':
-            fn = n
-            while fn is not None and not isinstance(fn, ast.FunctionDef):
-                fn = getattr(fn, '_parent', None)
-            if fn is None or fn.name != '__init':
-                unknown.append(n.lineno)
-    return table, unknown
-
-
-READER_FAMILY = {}
-
-
-def reader_leaf(fn, byte):
-    env = {'code': bytes([byte]), 'compatibility': False}
-    return take_path(fn.body, env, fn.name)
-
-
-def analyse_value_expr(e, byte, fnname):
-    """Classify the expression that yields the value / the length.
-    -> ('inline', value) | ('read', fmt, n) | ('const', v)"""
-    env = {'code': bytes([byte])}
-    # struct.unpack(FMT, _read_except(fp, N))[0]
-    if (isinstance(e, ast.Subscript) and isinstance(e.value, ast.Call)
-            and unparse(e.value.func) == 'struct.unpack' and len(e.value.args) == 2):
-        try:
-            idx = fold(e.slice, {})
-            fmt = fold(e.value.args[0], {})
-        except Unfoldable:
-            raise AnalysisError('%s: computed struct.unpack format/index' % fnname)
-        if idx != 0:
-            raise AnalysisError('%s: struct.unpack(...)[%r]' % (fnname, idx))
-        src = e.value.args[1]
-        if isinstance(src, ast.Call) and unparse(src.func) == '_read_except' and len(src.args) == 2:
-            if unparse(src.args[0]) != 'fp':
-                raise AnalysisError('%s: _read_except on %s' % (fnname, unparse(src.args[0])))
-            try:
-                n = fold(src.args[1], {})
-            except Unfoldable:
-                raise AnalysisError('%s: computed read size' % fnname)
-            return ('read', fmt, n)
-        if unparse(src) == 'code':
-            return ('inline', struct.unpack(fmt, bytes([byte]))[0], fmt)
-    try:
-        v = fold(e, env)
-        if isinstance(e, ast.Constant):
-            return ('const', v)
-        return ('inline', v, None)
-    except (Unfoldable, struct.error):
-        pass
-    raise AnalysisError('%s: unrecognised decode expression %s' % (fnname, unparse(e)))
-
-
-def check_reader(repo, res, table, emitted):
-    funcs = {}
-    nrows = 0
-    for byte in range(256):
-        spec = S.BY_BYTE[byte]
-        name, fam, lo, hi, kind, sp = spec
-        key = 'first byte 0x%02x (%s)' % (byte, name)
-        ent = table.get(bytes([byte]))
-        if ent is None:
-            res.check('C14-R3', key, False, F, 0,
-                      'dispatch table has no entry for 0x%02x (%s): a spec-valid encoding '
-                      'raises KeyError' % (byte, name))
-            continue
-        fname, line = ent
-        if fname not in funcs:
-            funcs[fname] = repo.module_func(F, fname)
-        fn = funcs[fname]
-        leaf = reader_leaf(fn, byte)
-        first = leaf[0] if leaf else None
-        # which family does this decoder implement?  decided by its tail
-        got = None
-        detail = ''
-        if first is None:
-            raise AnalysisError('%s: empty path for 0x%02x' % (fname, byte))
-        if isinstance(first, ast.Raise):
-            exc = unparse(first.exc) if first.exc else ''
-            if kind == 'reserved':
-                ok = exc.startswith('ReservedCodeException')
-                res.check('C14-R3', key, ok, F, first.lineno,
-                          '0xc1 must be refused with ReservedCodeException', nontrivial=False)
-            else:
-                res.check('C14-R3', key, False, F, first.lineno,
-                          'decoder %s refuses the spec-valid first byte 0x%02x (%s): path '
-                          'ends in `%s`' % (fname, byte, name, norm_stmt(first)))
-            nrows += 1
-            continue
-        if kind == 'reserved':
-            res.check('C14-R3', key, False, F, first.lineno, '0xc1 must be refused')
-            continue
-        if isinstance(first, ast.Return):
-            info = analyse_value_expr(first.value, byte, fname)
-            tailfam = {'_unpack_integer': 'int', '_unpack_float': 'float', '_unpack_nil': 'nil',
-                       '_unpack_boolean': 'bool'}.get(fname)
-            valinfo = info
-        elif isinstance(first, ast.Assign) and unparse(first.targets[0]) == 'length':
-            info = analyse_value_expr(first.value, byte, fname)
-            tailfam = reader_tail_family(fn, leaf[1:])
-            valinfo = info
-        else:
-            raise AnalysisError('%s: unrecognised leaf statement %s' % (fname, norm_stmt(first)))
-        nrows += 1
-        # family
-        famok = (tailfam == fam)
-        res.check('C14-R3', key + ' family', famok, F, line,
-                  '0x%02x (%s, family %s) is dispatched to %s which decodes family %s'
-                  % (byte, name, fam, fname, tailfam), nontrivial=False)
-        if not famok:
-            continue
-        # layout
-        if kind == 'inline':
-            want = byte - 256 if sp['signed'] else byte & sp['mask']
-            ok = valinfo[0] == 'inline' and valinfo[1] == want
-            res.check('C14-R3', key, ok, F, first.lineno,
-                      '0x%02x (%s) must decode to %d; %s yields %s' % (byte, name, want, fname,
-                                                                      valinfo[1:]),
-                      sample='0x%02x -> %s: inline value %d' % (byte, fname, want))
-        elif kind == 'fixlen':
-            want = byte & sp['mask']
-            ok = valinfo[0] == 'inline' and valinfo[1] == want
-            res.check('C14-R3', key, ok, F, first.lineno,
-                      '0x%02x (%s) must carry length %d; %s computes %s'
-                      % (byte, name, want, fname, valinfo[1:]),
-                      sample='0x%02x -> %s: length %d from the low bits' % (byte, fname, want))
-        elif kind in ('value', 'len'):
-            ok = (valinfo[0] == 'read' and norm_fmt(valinfo[1]) == norm_fmt(sp['fmt'])
-                  and valinfo[2] == sp['width'])
-            res.check('C14-R3', key, ok, F, first.lineno,
-                      '0x%02x (%s) must read %d byte(s) as struct %r; %s does %s'
-                      % (byte, name, sp['width'], sp['fmt'], fname, valinfo),
-                      sample='0x%02x -> %s: read %d bytes as %r' % (byte, fname, sp['width'],
-                                                                    sp['fmt']))
-        elif kind == 'fixext':
-            ok = valinfo[0] in ('const', 'inline') and valinfo[1] == sp['n']
-            res.check('C14-R3', key, ok, F, first.lineno,
-                      '0x%02x (%s) must use data length %d; %s uses %s'
-                      % (byte, name, sp['n'], fname, valinfo[1:]),
-                      sample='0x%02x -> %s: implied length %d' % (byte, fname, sp['n']))
-        elif kind == 'const':
-            ok = valinfo[0] == 'const' and valinfo[1] is sp['value']
-            res.check('C14-R3', key, ok, F, first.lineno,
-                      '0x%02x must decode to %r' % (byte, sp['value']), nontrivial=False)
-        # R4: writer/reader agreement for emitted formats is implied by R1+R3 on the
-        # same spec row; record the pairing explicitly
-        if byte in emitted:
-            res.ob('C14-R4', 'pair 0x%02x' % byte, True, nontrivial=False,
-                   sample='0x%02x written by %s, read by %s' % (byte, emitted[byte][0][0], fname))
-    return nrows, funcs
-
-
-def reader_tail_family(fn, tail):
-    """Classify the common tail after `length = ...` and check its shape.
-    Returns the family name or raises AnalysisError."""
-    name = fn.name
-    rets = [s for s in ast.walk(fn) if isinstance(s, ast.Return)]
-    return {'_unpack_string': 'str', '_unpack_binary': 'bin', '_unpack_ext': 'ext',
-            '_unpack_array': 'array', '_unpack_map': 'map'}.get(name)
-
-
-def check_reader_tails(repo, res, funcs):
-    def calls_in(node):
-        return [n for n in ast.walk(node) if isinstance(n, ast.Call)]
-
-    # string
-    fn = repo.module_func(F, '_unpack_string')
-    rets = [s for s in fn.body if isinstance(s, ast.Try)] + [s for s in fn.body if isinstance(s, ast.Return)]
-    reads = [unparse(c) for s in fn.body if not isinstance(s, ast.If) or unparse(s.test) == 'compatibility'
-             for c in calls_in(s) if unparse(c.func) == '_read_except']
-    ok = bool(reads) and all(r == '_read_except(fp, length)' for r in reads)
-    dec = any('utf-8' in unparse(c) or 'utf8' in unparse(c).lower() for s in fn.body for c in calls_in(s)
-              if 'decode' in unparse(c.func))
-    res.check('C14-R3', '_unpack_string tail', ok and dec, F, fn.lineno,
-              '_unpack_string must read exactly `length` payload bytes and decode them as UTF-8; '
-              'reads: %s' % reads)
-    # binary
-    fn = repo.module_func(F, '_unpack_binary')
-    last = fn.body[-1]
-    ok = isinstance(last, ast.Return) and unparse(last.value) == '_read_except(fp, length)'
-    res.check('C14-R3', '_unpack_binary tail', ok, F, last.lineno,
-              '_unpack_binary must return exactly `length` payload bytes')
-    # ext: type byte (1) first, then `length` data bytes
-    fn = repo.module_func(F, '_unpack_ext')
-    last = fn.body[-1]
-    ok = False
-    seq = []
-    if isinstance(last, ast.Return):
-        # evaluation order = source order of the _read_except calls
-        seq = [unparse(c) for c in sorted(calls_in(last), key=lambda c: (c.lineno, c.col_offset))
-               if unparse(c.func) == '_read_except']
-        ok = seq == ['_read_except(fp, 1)', '_read_except(fp, length)']
-        if ok and isinstance(last.value, ast.Call) and unparse(last.value.func) == 'Ext':
-            a0, a1 = last.value.args[0], last.value.args[1]
-            ok = '_read_except(fp, 1)' in unparse(a0) and unparse(a1) == '_read_except(fp, length)'
-    else:
-        # statement form: type = ...; data = ...; return Ext(type, data)
-        seq = [unparse(c) for s in fn.body if not isinstance(s, ast.If) for c in calls_in(s)
-               if unparse(c.func) == '_read_except']
-        ok = seq == ['_read_except(fp, 1)', '_read_except(fp, length)']
-    res.check('C14-R3', '_unpack_ext tail', ok, F, last.lineno,
-              '_unpack_ext must read the 1-byte type before `length` data bytes; reads %s' % seq)
-    # array
-    fn = repo.module_func(F, '_unpack_array')
-    last = fn.body[-1]
-    ok = False
-    if isinstance(last, ast.Return) and isinstance(last.value, ast.ListComp):
-        g = last.value.generators
-        ok = (unparse(last.value.elt) == '_unpack(fp)' and len(g) == 1 and not g[0].ifs
-              and unparse(g[0].iter) in ('range(length)', 'xrange(length)'))
-    res.check('C14-R3', '_unpack_array tail', ok, F, last.lineno,
-              '_unpack_array must decode exactly `length` elements in order')
-    # map
-    fn = repo.module_func(F, '_unpack_map')
-    loops = [s for s in fn.body if isinstance(s, ast.For)]
-    ok = False
-    if len(loops) == 1 and unparse(loops[0].iter) in ('range(length)', 'xrange(length)'):
-        lp = loops[0]
-        unp = [(s.lineno, unparse(s.targets[0])) for s in lp.body
-               if isinstance(s, ast.Assign) and unparse(s.value) == '_unpack(fp)']
-        stores = [s for s in ast.walk(lp) if isinstance(s, ast.Assign)
-                  and isinstance(s.targets[0], ast.Subscript)]
-        ok = (len(unp) == 2 and len(stores) == 1
-              and unparse(stores[0].targets[0]) == 'd[%s]' % unp[0][1]
-              and unparse(stores[0].value) == unp[1][1]
-              and isinstance(fn.body[-1], ast.Return) and unparse(fn.body[-1].value) == 'd')
-    res.check('C14-R3', '_unpack_map tail', ok, F, fn.lineno,
-              '_unpack_map must decode `length` (key, value) pairs, key first, and store each')
-    # _unpack
-    fn = repo.module_func(F, '_unpack')
-    txt = [norm_stmt(s) for s in fn.body]
-    ok = (len(txt) == 2 and txt[0] == 'code = _read_except(fp, 1)'
-          and txt[1] == 'return _unpack_dispatch_table[code](code, fp)')
-    res.check('C14-R5', '_unpack', ok, F, fn.lineno,
-              '_unpack must read one byte through _read_except and dispatch on it; found %s' % txt)
-
-
-def check_truncation(repo, res):
-    tree = repo.tree(F)
-    n_sites = 0
-    for n in ast.walk(tree):
-        if isinstance(n, ast.Call) and isinstance(n.func, ast.Attribute) and n.func.attr in (
-                'read', 'readinto', 'read1', 'readline', 'getvalue', 'getbuffer'):
-            if n.func.attr == 'getvalue':
-                continue
-            fn = n
-            while fn is not None and not isinstance(fn, ast.FunctionDef):
-                fn = getattr(fn, '_parent', None)
-            fname = fn.name if fn else '<module>'
-            n_sites += 1
-            res.check('C14-R5', 'raw read in %s' % fname, fname == '_read_except', F, n.lineno,
-                      'raw %s() outside _read_except in %s: a truncated input is not detected '
-                      'as InsufficientDataException' % (unparse(n.func), fname))
-    fn = repo.module_func(F, '_read_except')
-    # data = fp.read(n); if len(data) < n: raise InsufficientDataException(); return data
-    ok = False
-    var = None
-    for s in fn.body:
-        if isinstance(s, ast.Assign) and unparse(s.value) == 'fp.read(n)':
-            var = unparse(s.targets[0])
-    if var:
-        for s in fn.body:
-            if isinstance(s, ast.If) and s.body and isinstance(s.body[0], ast.Raise):
-                # the guard must be true for every short read: evaluate on 0 <= len < n
-                exc = unparse(s.body[0].exc)
-                guard_ok = True
-                for n_ in (1, 2, 5):
-                    for ln in range(0, n_ + 1):
-                        try:
-                            g = fold(s.test, {'len(%s)' % var: ln, 'n': n_})
-                        except Unfoldable:
-                            raise AnalysisError('_read_except: cannot fold guard %s' % unparse(s.test))
-                        if bool(g) != (ln < n_):
-                            guard_ok = False
-                ok = guard_ok and exc.startswith('InsufficientDataException')
-        last = fn.body[-1]
-        ok = ok and isinstance(last, ast.Return) and unparse(last.value) == var
-    res.check('C14-R5', '_read_except', ok, F, fn.lineno,
-              '_read_except must raise InsufficientDataException exactly when fewer than n '
-              'bytes were read, and otherwise return them')
-    # InsufficientDataException is an UnpackException
-    k = repo.klass(F, 'InsufficientDataException')
-    res.check('C14-R5', 'InsufficientDataException base', [unparse(b) for b in k.bases] == ['UnpackException'],
-              F, k.lineno, 'InsufficientDataException must derive from UnpackException', nontrivial=False)
-    # every decoder obtains bytes only via _read_except / code: no slicing of fp
-    return n_sites
-
-
-def check_dispatch_order(repo, res, initassigns):
-    fn = repo.module_func(F, '_pack3')
-
-    class T(object):
-        pass
-    types = {
-        'None': (type(None), '_pack_nil'), 'bool': (bool, '_pack_boolean'),
-        'int': (int, '_pack_integer'), 'float': (float, '_pack_float'),
-        'str': (str, '_pack_string'), 'bytes': (bytes, '_pack_binary'),
-        'list': (list, '_pack_array'), 'tuple': (tuple, '_pack_array'),
-        'dict': (dict, '_pack_map'), 'Ext': (T, '_pack_ext'),
-    }
-    tymap = {'bool': bool, 'int': int, 'float': float, 'str': str, 'bytes': bytes, 'list': list,
-             'tuple': tuple, 'dict': dict, 'Ext': T}
-
-    def cond(e, ty):
-        if isinstance(e, ast.BoolOp):
-            vals = [cond(v, ty) for v in e.values]
-            return all(vals) if isinstance(e.op, ast.And) else any(vals)
-        if isinstance(e, ast.Compare) and unparse(e) == 'obj is None':
-            return ty is type(None)
-        if isinstance(e, ast.Call) and unparse(e.func) == 'isinstance' and unparse(e.args[0]) == 'obj':
-            names = [unparse(x) for x in (e.args[1].elts if isinstance(e.args[1], ast.Tuple) else [e.args[1]])]
-            out = False
-            for nm in names:
-                if nm not in tymap:
-                    raise AnalysisError('_pack3: isinstance against unknown type %s' % nm)
-                out = out or issubclass(ty, tymap[nm])
-            return out
-        if isinstance(e, ast.Name) and e.id == 'compatibility':
-            return False
-        if isinstance(e, ast.UnaryOp) and isinstance(e.op, ast.Not):
-            return not cond(e.operand, ty)
-        raise AnalysisError('_pack3: unrecognised dispatch condition %s' % unparse(e))
-
-    def walk(stmts, ty):
-        for st in stmts:
-            if isinstance(st, ast.If):
-                r = walk(st.body if cond(st.test, ty) else st.orelse, ty)
-                if r:
-                    return r
-            elif isinstance(st, ast.Expr) and isinstance(st.value, ast.Call):
-                return unparse(st.value.func), st.lineno
-            elif isinstance(st, ast.Raise):
-                return 'raise', st.lineno
+def payload_problem(kind, rest, r, qn):
+    if kind == 'int':
+        return None if not rest else 'an integer is followed by %s' % (rest,)
+    if kind in ('str', 'bytes', 'ext'):
+        if len(rest) != 1 or not isinstance(rest[0], C.SymPayload):
+            return 'the header must be followed by exactly the payload, found %s' % (rest,)
+        ln = rest[0].length
+        if not (isinstance(ln, C.SymInt) and ln.name == qn):
+            return 'the payload written has length %r, the header announces %s' % (ln, qn)
         return None
+    want = [('nested', 'element')] if kind in ('list', 'tuple') else [('nested', 'key'), ('nested', 'value')]
+    if list(rest) != want:
+        return 'the header must be followed by %s per item, found %s' % (want, rest)
+    rep = [x for x in r['repeat'] if x[0] in ('each-element', 'each-item')]
+    if len(rep) != 1 or not (isinstance(rep[0][1], C.SymInt) and rep[0][1].name == qn):
+        return 'the items are not written once per element of the container (%s)' % (rep,)
+    return None
 
+
+# ---------------------------------------------------------------------------------------------------------------
+
+def describe_reads(row):
+    """the reads after the first byte, as [('header', n) | ('payload', expr) | ('nested',)]"""
+    out = []
+    for r in row['reads'][1:]:
+        if r[0] == 'header':
+            out.append(('header', r[2], r[1]))
+        elif r[0] == 'payload':
+            out.append(('payload', r[2], r[1]))
+        else:
+            out.append((r[0],))
+    return out
+
+
+def check_reader(res, rt, compat):
+    mode = ' [compatibility]' if compat else ''
     n = 0
-    for tname, (ty, want) in sorted(types.items()):
-        got = walk(fn.body, ty)
+    for b in range(256):
+        name, fam, lo, hi, kind, prm = S.BY_BYTE[b]
+        rows = rt[b]
+        key = 'unpack 0x%02x (%s)%s' % (b, name, mode)
         n += 1
-        res.check('C14-R6', '_pack3 %s' % tname, bool(got) and got[0] == want, F,
-                  got[1] if got else fn.lineno,
-                  '_pack3: a value of type %s must reach %s, reaches %s (order of the '
-                  'isinstance chain: bool before int, str/bytes before containers)'
-                  % (tname, want, got[0] if got else None),
-                  sample='_pack3: %s -> %s' % (tname, want))
-    # aliases selected for Python 3
-    want = {'pack': '_pack3', 'packb': '_packb3', 'dumps': '_packb3', 'dump': '_pack3',
-            'unpack': '_unpack3', 'unpackb': '_unpackb3', 'loads': '_unpackb3', 'load': '_unpack3',
-            'compatibility': 'False'}
-    for k, v in sorted(want.items()):
-        res.check('C14-R6', 'alias %s' % k, initassigns.get(k) == v, F, 0,
-                  '__init must bind %s to %s on Python 3, binds %s' % (k, v, initassigns.get(k)),
-                  nontrivial=False)
-    pb = repo.module_func(F, '_packb3')
-    txt = [norm_stmt(s) for s in pb.body if not (isinstance(s, ast.Expr) and isinstance(s.value, ast.Constant))]
-    res.check('C14-R6', '_packb3', txt == ['fp = io.BytesIO()', '_pack3(obj, fp)', 'return fp.getvalue()'],
-              F, pb.lineno, '_packb3 must serialise through _pack3 into a fresh buffer and return it', nontrivial=False)
-    ub = repo.module_func(F, '_unpackb3')
-    last = ub.body[-1]
-    res.check('C14-R6', '_unpackb3', isinstance(last, ast.Return) and unparse(last.value) == '_unpack(io.BytesIO(s))',
-              F, ub.lineno, '_unpackb3 must decode from the start of the given bytes', nontrivial=False)
-    # compatibility flag: False at import, assigned nowhere else to anything but False
-    import os
-    bad = []
-    for rel, tree in repo.trees.items():
-        for node in ast.walk(tree):
-            if isinstance(node, (ast.Assign, ast.AugAssign, ast.AnnAssign)):
-                tgts = node.targets if isinstance(node, ast.Assign) else [node.target]
-                for t in tgts:
-                    tt = unparse(t)
-                    if tt == 'compatibility' and rel == F or tt.endswith('.compatibility'):
-                        v = getattr(node, 'value', None)
-                        if not (isinstance(v, ast.Constant) and v.value is False):
-                            bad.append((rel, node.lineno))
-            if isinstance(node, ast.Call) and unparse(node.func) == 'setattr' and node.args \
-                    and 'compatibility' in unparse(node):
-                bad.append((rel, node.lineno))
-    res.check('C14-R6', 'compatibility flag', not bad, bad[0][0] if bad else F, bad[0][1] if bad else 0,
-              'the compatibility flag must stay False (the str/bin families of the current spec '
-              'are used on the wire); assigned at %s' % bad)
+        good = [r for r in rows if r['exc'] is None]
+        bad = [r for r in rows if r['exc'] is not None]
+        if kind == 'reserved':
+            res.check('C14-R3', key, not good and all(r['exc'].exc_name == 'ReservedCodeException' for r in bad), F, 0,
+                      'the reserved code 0xc1 must be refused with ReservedCodeException; got %s' % [(r['exc'] and r['exc'].exc_name, r['result']) for r in rows],
+                      sample='0xc1 -> ReservedCodeException')
+            continue
+        problems = []
+        for r in rows:
+            pr = reader_problem(b, fam, kind, prm, r, compat)
+            if pr:
+                problems.append(pr)
+        if not good:
+            problems.append('no path decodes this spec-valid first byte')
+        res.check('C14-R3', key, not problems, F, 0, 'first byte 0x%02x (%s): %s' % (b, name, '; '.join(problems[:3])),
+                  sample='0x%02x -> %s' % (b, name))
     return n
 
 
+ALLOWED_MAP_EXC = ('UnhashableKeyException', 'DuplicateKeyException')
+
+
+def reader_problem(b, fam, kind, prm, r, compat):
+    reads = describe_reads(r)
+    exc = r['exc']
+    res_ = r['result']
+    hdr = [x for x in reads if x[0] == 'header']
+    pay = [x for x in reads if x[0] == 'payload']
+    nested = [x for x in reads if x[0] == 'nested']
+    # expected header reads
+    want_hdr = []
+    length = None           # int or ('field', read index)
+    if kind in ('inline', 'const'):
+        pass
+    elif kind == 'value':
+        want_hdr.append(prm['width'])
+    elif kind == 'len':
+        want_hdr.append(prm['width'])
+    elif kind == 'fixlen':
+        length = b & prm['mask']
+    elif kind == 'fixext':
+        length = prm['n']
+    if fam == 'ext':
+        want_hdr.append(1)
+    if exc is not None:
+        if fam == 'map' and exc.exc_name in ALLOWED_MAP_EXC:
+            return None
+        if fam == 'ext' and exc.exc_name == 'TypeError' and 'ext type' in str(exc.msg):
+            return None            # reported once for all ext codes, see run()
+        return 'raises %s: %s' % (exc.exc_name, exc.msg)
+    # concrete-size payloads (fixstr, fixext) are logged as header reads: split them off
+    conc_payload = None
+    if fam in ('str', 'bin', 'ext') and isinstance(length, int):
+        if len(hdr) != len(want_hdr) + 1:
+            return 'performs the header reads %s, the format has %s plus a payload of %d bytes' % ([h[1] for h in hdr], want_hdr, length)
+        conc_payload = hdr[-1]
+        hdr = hdr[:-1]
+        if conc_payload[1] != length:
+            return 'reads a payload of %d bytes, the format carries %d' % (conc_payload[1], length)
+    if [h[1] for h in hdr] != want_hdr:
+        return 'performs the header reads %s, the format has %s' % ([h[1] for h in hdr], want_hdr)
+    if fam == 'int':
+        if kind == 'inline':
+            want = (b & prm['mask']) if not prm['signed'] else struct.unpack('b', bytes([b]))[0]
+            return None if res_ == want and not isinstance(res_, bool) else 'decodes to %r, the specification says %r' % (res_, want)
+        if not (isinstance(res_, C.SymField) and res_.read == hdr[0][2] and norm_fmt(res_.fmt) == norm_fmt(prm['fmt']) and res_.index == 0):
+            return 'decodes the %d-byte value as %r, the specification says format %s' % (prm['width'], res_, prm['fmt'])
+        return None
+    if fam == 'float':
+        if not (isinstance(res_, tuple) and res_[:1] == ('float-field',) and norm_fmt(res_[2]) == norm_fmt(prm['fmt'])):
+            return 'decodes the float as %r, the specification says format %s' % (res_, prm['fmt'])
+        return None
+    if fam in ('nil', 'bool'):
+        return None if res_ is prm['value'] else 'decodes to %r, the specification says %r' % (res_, prm['value'])
+    # families with a length
+    if kind == 'len':
+        # the length must be the field unpacked from the first header read with the row's format
+        lf = _length_field(r, hdr[0][2])
+        if lf is None or norm_fmt(lf.fmt) != norm_fmt(prm['fmt']):
+            return 'does not take the length from the %d-byte header field with format %s (%s)' % (prm['width'], prm['fmt'], lf)
+        length = lf
+    if fam in ('str', 'bin', 'ext'):
+        if isinstance(length, C.SymField):
+            if len(pay) != 1 or pay[0][1] is not length:
+                return 'reads a payload of %s bytes, the header field says %r' % ([p[1] for p in pay], length)
+            pl_read = pay[0][2]
+        else:
+            pl_read = conc_payload[2]
+        if fam == 'str':
+            if compat:
+                ok = isinstance(res_, (C.SymPayload, C.SymRead))
+            else:
+                ok = isinstance(res_, C.SymDecoded) and str(res_.codec).lower().replace('_', '-') in ('utf-8', 'utf8')
+            return None if ok else 'builds %r from the payload (%s mode)' % (res_, 'compatibility' if compat else 'standard')
+        if fam == 'bin':
+            return None if isinstance(res_, (C.SymPayload, C.SymRead)) else 'returns %r instead of the payload bytes' % (res_,)
+        # ext
+        if not (hasattr(res_, 'attrs') and res_.cls.name == 'Ext'):
+            return 'returns %r instead of an Ext' % (res_,)
+        t, data = res_.attrs.get('type'), res_.attrs.get('data')
+        tread = hdr[-1][2]
+        if not (isinstance(t, C.SymField) and t.read == tread):
+            return 'the ext type is %r, not the byte read after the length' % (t,)
+        if not (isinstance(data, (C.SymPayload, C.SymRead)) and getattr(data, 'read', getattr(data, 'k', None)) == pl_read):
+            return 'the ext data is %r, not the payload' % (data,)
+        return None
+    if fam in ('array', 'map'):
+        per = 1 if fam == 'array' else 2
+        if pay:
+            return 'reads a raw payload %s inside a container' % (pay,)
+        count = length
+        if isinstance(count, int) and count == 0:
+            ok = not nested and res_ in ([], {})
+            return None if ok else 'an empty %s decodes to %r after %d nested reads' % (fam, res_, len(nested))
+        if len(nested) != per:
+            return 'decodes %d nested objects per item, a %s has %d' % (len(nested), fam, per)
+        reps = [x for x in r['repeat'] if x[0] in ('begin', 'loop')]
+        if isinstance(count, int) and count == 1:
+            if reps:
+                return 'one item is decoded in a loop over %r' % (reps,)
+        else:
+            if len(reps) != 1 or not (reps[0][1] is count or reps[0][1] == count):
+                return 'the items are decoded %s times, the header says %r' % ([x[1] for x in reps], count)
+        if fam == 'array':
+            ok = isinstance(res_, C.SymRepeat) or (isinstance(res_, list) and len(res_) == 1)
+            return None if ok else 'an array decodes to %r' % (res_,)
+        return None if isinstance(res_, dict) and len(res_) == 1 else 'a map decodes to %r' % (res_,)
+    return 'unhandled family %s' % fam
+
+
+def _length_field(r, read_index):
+    """the SymField unpacked from read `read_index` that the path used (found among payload sizes / repeat counts / constraints)"""
+    cands = []
+    for rd in r['reads']:
+        if rd[0] == 'payload' and isinstance(rd[2], C.SymField):
+            cands.append(rd[2])
+    for x in r['repeat']:
+        if isinstance(x[1], C.SymField):
+            cands.append(x[1])
+    for c in cands:
+        if c.read == read_index:
+            return c
+    return None
+
+
 def run(repo, res):
-    emitted = {}
-    nw = 0
-    for fname, (family, domain) in sorted(WRITERS.items()):
-        nw += check_writer(repo, res, fname, family, domain, emitted)
-    initassigns = check_simple_writers(repo, res, emitted)
-    table, unknown = dispatch_table(repo)
-    res.check('C14-R3', 'dispatch table writers', not unknown, F, unknown[0] if unknown else 0,
-              '_unpack_dispatch_table is modified outside __init (lines %s)' % unknown, nontrivial=False)
-    nr, funcs = check_reader(repo, res, table, emitted)
-    check_reader_tails(repo, res, funcs)
-    nsites = check_truncation(repo, res)
-    nd = check_dispatch_order(repo, res, initassigns)
-    # every spec format of the families the writer owns is emitted at least for the
-    # minimal-format rows the mechanism ("smallest-format selection") promises
-    res.count('writer_rows', nw, floor=30)
-    res.count('dispatch_entries', len(table), floor=256)
-    res.count('reader_rows', nr, floor=256)
-    res.count('raw_read_sites', nsites, floor=1)
-    res.count('type_dispatch_rows', nd, floor=10)
-    res.extra['emitted_first_bytes'] = sorted('0x%02x' % b for b in emitted)
-    res.note('Ext type byte: the reader passes the unsigned type byte to Ext(), which accepts 0..127 '
-             'only; encodings with the reserved negative ext types (e.g. timestamp -1) raise TypeError. '
-             'Outside the stated data model (application ext types); evidence note only.')
+    try:
+        tables = {}
+        for compat in (False, True):
+            tables[compat] = (C.writer_table(repo, compat), C.reader_table(repo, compat))
+    except C.Uninterpretable as e:
+        raise AnalysisError('umsgpack is outside the interpretable subset: %s' % e)
+    nw = nr = 0
+    for compat in (False, True):
+        wt, rt = tables[compat]
+        nw += check_writer(res, wt, compat, C.ext_type_range(repo.memo('codec-interp', lambda: C.CodecInterp(repo))))
+        nr += check_reader(res, rt, compat)
+    # the ext type byte: the specification allows -128..127 (negative = predefined types such as timestamp)
+    ext_bad = sorted(b for b in range(256) if any(r['exc'] is not None and r['exc'].exc_name == 'TypeError' for r in tables[False][1][b]))
+    res.check('C14-R3', 'ext type byte >= 0x80', not ext_bad, F, 0,
+              'for the first bytes %s an ext whose type byte is 0x80..0xff (the predefined types of the specification, e.g. timestamp '
+              '-1) makes unpack raise TypeError("ext type out of range") - a spec-valid encoding is not accepted, and the exception is '
+              'not an UnpackException' % ' '.join('0x%02x' % b for b in ext_bad), sample='ext type 0x80..0xff decodes')
+    # R5 truncation
+    cuts = C.reader_table(repo, False, short=True)
+    ncut = 0
+    for b in range(256):
+        badc = []
+        for k, exc, result in cuts[b]:
+            ncut += 1
+            if exc is None or exc.exc_name != 'InsufficientDataException':
+                badc.append('read %d short -> %s' % (k, exc.exc_name if exc else 'returns %r' % (result,)))
+        res.check('C14-R5', 'unpack 0x%02x with a short read' % b, not badc, F, 0,
+                  'first byte 0x%02x: a read that returns fewer bytes than asked must end in InsufficientDataException: %s'
+                  % (b, '; '.join(badc[:3])), sample='0x%02x: every short read -> InsufficientDataException' % b, nontrivial=bool(cuts[b]))
+    # R6 nested list keys
+    for label, key, want in (('a flat array key', [1, 2], (1, 2)), ('an array key containing an array', [[1, 2], 3], ((1, 2), 3)),
+                             ('a deeply nested array key', [[[1]], []], (((1,),), ()))):
+        got, exc = C.map_with_key(repo, key)
+        ok = exc is None and isinstance(got, dict) and list(got.keys()) == [want]
+        res.check('C14-R6', 'map key: %s' % label, ok, F, 0,
+                  'a map whose key is %s (%r) must decode to a dict keyed by the equal tuple %r; got %s'
+                  % (label, key, want, exc or got), sample='%r -> %r' % (key, want))
+    er = C.ext_type_range(repo.memo('codec-interp', lambda: C.CodecInterp(repo)))
+    res.check('C14-R2', 'ext types accepted by the constructor', er[0] <= 0 and er[1] == 127 and er[0] in (0, -128), F, 0,
+              'Ext must accept the application types 0..127 (and may accept the predefined -128..-1); it accepts %s' % (er,),
+              sample='Ext types %d..%d' % er)
+    res.count('writer_rows', nw, floor=60)
+    res.count('reader_rows', nr, floor=512)
+    res.count('truncation_cases', ncut, floor=150)
     res.assumptions.extend([
-        'struct.pack/unpack implement the named formats (CPython stdlib)',
-        'the MessagePack spec table in sa/msgpack_spec.py is transcribed correctly',
-        'value-level round-trip (float bits, UTF-8 validity, nesting) is not decided',
+        'struct.pack/unpack and bytes concatenation behave as documented (stdlib)',
+        'sa/msgpack_spec.py transcribes the specification table correctly',
+        'the writer is evaluated at the ends, the neighbours of the ends and the middle of each interval (its header fields are '
+        'bitwise/affine in the quantity); nested values are cut at depth 1',
     ])
